@@ -117,29 +117,38 @@ def run_frames(case):
     sim.advance(3 * MS)
     listen = [bytes(chip.pipe_addr(p)) for p in range(6)]
     qlen = lambda: len(node.queue)  # noqa: E731
-    frames = case["frames"][:4]
+    frames = case["frames"][:6]
+    batch = 3 if case.get("batch") else 1
+    groups = [frames[i:i + batch] for i in range(0, len(frames), batch)]
     try:
-        for f in frames:
-            data = bytes.fromhex(f["hex"])[:32]
-            a = listen[f["pipe"] % 6]
-            x.ce(False)
-            x.w(7, 0x70)
-            x.x(0xE1)
-            x.w(0x0A, *a)
-            x.w(0x10, *a)
-            if data:
-                x.x(0xB0 if f["pipe"] % 6 == 0 else 0xA0, *data)
-                x.ce(True)
-                sim.advance(3 * MS)
+        for grp in groups:
+            valid = True
+            data = b""
+            for f in grp:
+                data = bytes.fromhex(f["hex"])[:32]
+                a = listen[f["pipe"] % 6]
                 x.ce(False)
-            if len(data) < 8:
-                valid = False
-            else:
-                frm, to = struct.unpack("<HH", data[:4])
-                valid = netaddr.is_valid(frm) and netaddr.is_valid(to)
+                x.w(7, 0x70)
+                x.x(0xE1)
+                x.w(0x0A, *a)
+                x.w(0x10, *a)
+                if data:
+                    x.x(0xB0 if f["pipe"] % 6 == 0 else 0xA0, *data)
+                    x.ce(True)
+                    sim.advance(3 * MS)
+                    x.ce(False)
+                if len(data) < 8:
+                    valid = False
+                else:
+                    frm, to = struct.unpack("<HH", data[:4])
+                    valid = valid and netaddr.is_valid(frm) and netaddr.is_valid(to)
             if valid:
                 res.nontrivial = True
-            received = bool(chip.rxf)
+            if len(grp) > 1 and valid:
+                valid = True  # mixed groups are only judged for crashes / time / FIFO drain
+            received = bool(chip.rxf) and (len(grp) == 1 or not any(
+                len(bytes.fromhex(g["hex"])) >= 8 and netaddr.is_valid(struct.unpack("<H", bytes.fromhex(g["hex"])[:2])[0])
+                and netaddr.is_valid(struct.unpack("<H", bytes.fromhex(g["hex"])[2:4])[0]) for g in grp))
             q0, n0, t0 = qlen(), len(med.log), sim.now
             guard = 0
             while chip.rxf and guard < 8:
@@ -169,7 +178,6 @@ def run_frames(case):
     except SimHorizon:
         res.fail("C15/update-does-not-terminate", "virtual-time horizon reached in update()")
     except Exception as e:  # noqa: BLE001 - the property: update() never raises
-        data = bytes.fromhex(frames[-1]["hex"]) if frames else b""
         res.fail(exc_signature("C15/update-raises", e), "%s at level %d on %r (type %s, %d bytes)" % (
             case["role"], case["level"], e, data[6] if len(data) > 6 else None, len(data)))
     res.label(case["role"], "level%d" % case["level"])
@@ -233,6 +241,25 @@ def _structured(lengths, types):
     return gen
 
 
+def _master_histories():
+    """mesh master with a full or nearly full parent: an address request through that parent, then every kind of
+    follow-up frame (valid, invalid origin, invalid destination, short), one at a time and batched"""
+    followups = []
+    for o, d, t in ((0o6, 0, 0), (0o17, 0, 65), (0o10001, 0, 0), (0xFFFF, 0, 196), (0o1, 0o7, 0), (0o1, 0xFFFF, 195), (0o4444, 0, 195),
+                    (0o1, 0, 196), (0o2, 0, 198), (0o1, 0, 197), (0o4444, 0o100, 194), (0o1, 0o100, 196), (0o1, 0o100, 198)):
+        followups.append({"pipe": 0 if d == 0o100 else 2, "hex": (struct.pack("<HHHBB", o, d, 9, t, 44) + b"\x05\x00").hex()})
+    followups.append({"pipe": 1, "hex": "0102030405"})
+    for p in (0, 0o1, 0o23):
+        lv = netaddr.level(p)
+        full = [[20 + i, p | (i << (3 * lv))] for i in range(1, 6 if p == 0 else 5)]
+        for table in (full, full[:-1]):
+            for rid in (44, 21):
+                req = {"pipe": 3, "hex": struct.pack("<HHHBB", p if p else 0o4444, 0, 5, 195, rid).hex()}
+                for f1, f2 in itertools.product(followups, repeat=2):
+                    for batch in (False, True):
+                        yield {"kind": "frames", "role": "master", "level": 0, "dhcp": table, "batch": batch, "frames": [req, f1, f2]}
+
+
 def _short_frames():
     for role, levels in ROLES:
         for level in levels:
@@ -258,13 +285,20 @@ def _strategy():
                 raw = raw[:draw(st.integers(0, 9))]
         return {"pipe": draw(st.integers(0, 5)), "hex": raw.hex()}
 
+    def full_parent(p):
+        lv = netaddr.level(p)
+        return [[20 + i, p | (i << (3 * lv))] for i in range(1, 6 if p == 0 else 5)]
+
+    dhcp = st.one_of(
+        st.lists(st.tuples(st.integers(1, 255), st.sampled_from([0o1, 0o2, 0o5, 0o12, 0o444, 0o4444, 0o3])).map(list), max_size=4),
+        st.sampled_from([0, 0o1, 0o23, 0o123]).map(full_parent),
+        st.sampled_from([0, 0o1, 0o23]).map(lambda p: full_parent(p)[:-1]))
+
     @st.composite
     def case(draw):
-        role, levels = draw(st.sampled_from(ROLES))
-        return {"kind": "frames", "role": role, "level": draw(st.sampled_from(levels)),
-                "dhcp": draw(st.lists(st.tuples(st.integers(1, 255), st.sampled_from([0o1, 0o2, 0o5, 0o12, 0o444, 0o4444, 0o3])).map(list),
-                                      max_size=4)),
-                "frames": draw(st.lists(frame(), min_size=1, max_size=4))}
+        role, levels = draw(st.sampled_from(ROLES + [("master", (0,))]))
+        return {"kind": "frames", "role": role, "level": draw(st.sampled_from(levels)), "dhcp": draw(dhcp),
+                "batch": draw(st.booleans()), "frames": draw(st.lists(frame(), min_size=1, max_size=6))}
 
     return case()
 
@@ -304,11 +338,13 @@ def parts(tier):
     if tier == "quick":
         return [Part("predicate-all-65536", "enum", _pred_all, exhaustive=True),
                 Part("short-frames", "enum", _short_frames, exhaustive=True),
+                Part("master-histories", "enum", _master_histories, exhaustive=True),
                 Part("structured", "enum", _structured((0, 2, 24), range(0, 256)), exhaustive=True),
                 Part("generated", "gen", _strategy, n=3000),
                 Part("atheris", "fuzz", lambda: {"decoder": "vlib.checks.c15_robust:decode_bytes", "seconds": 15, "max_len": 140}, n=0)]
     return [Part("predicate-all-65536", "enum", _pred_all, exhaustive=True),
             Part("short-frames", "enum", _short_frames, exhaustive=True),
+            Part("master-histories", "enum", _master_histories, exhaustive=True),
             Part("structured", "enum", _structured(tuple(range(0, 25)), range(0, 256)), exhaustive=True),
             Part("generated", "gen", _strategy, n=150000),
             Part("atheris", "fuzz", lambda: {"decoder": "vlib.checks.c15_robust:decode_bytes", "seconds": 600, "max_len": 140}, n=0)]
